@@ -33,6 +33,7 @@ type vfOpResult struct {
 	Infos     []os.FileInfo
 	Pos       int64 // for seek
 	SrcRead   int64 // bytes the ReadFrom source handed out
+	Src       *vfSrc
 	SinkGot   []byte
 	VFS       *StatVFS
 	Panicked  bool
@@ -88,9 +89,22 @@ type vfSrc struct {
 	failErr error
 	chunk   int // max bytes per Read (0 = all)
 	handed  int64
+	sim     *vfSim // if set, every Read waits for the scheduler first (a slow source)
+	mu      sync.Mutex
+}
+
+func (s *vfSrc) handedOut() int64 {
+	s.mu.Lock()
+	defer s.mu.Unlock()
+	return s.handed
 }
 
 func (s *vfSrc) Read(p []byte) (int, error) {
+	if s.sim != nil {
+		s.sim.park(fmt.Sprintf("x:src:%06d", s.pos), nil)
+	}
+	s.mu.Lock()
+	defer s.mu.Unlock()
 	if s.failAt >= 0 && s.pos >= s.failAt {
 		return 0, s.failErr
 	}
@@ -286,16 +300,20 @@ func (e *vfClientEnv) do(op vfOp) (res *vfOpResult) {
 	case "readfrom", "readfromc":
 		data := vfFill(e.tag^uint64(op.B), 0, op.N)
 		// S encodes: kind, hintDelta, failAt, chunk
-		var kind, hintDelta, failAt, chunk int
+		var kind, hintDelta, failAt, chunk, slow int
 		failAt = -1
-		fmt.Sscanf(op.S, "%d,%d,%d,%d", &kind, &hintDelta, &failAt, &chunk)
+		fmt.Sscanf(op.S, "%d,%d,%d,%d,%d", &kind, &hintDelta, &failAt, &chunk, &slow)
 		rd, src := vfMakeSource(data, kind, hintDelta, failAt, chunk)
+		if slow != 0 {
+			src.sim = e.sim
+		}
+		res.Src = src
 		if op.K == "readfromc" {
 			res.N, res.Err = f.ReadFromWithConcurrency(rd, int(op.A))
 		} else {
 			res.N, res.Err = f.ReadFrom(rd)
 		}
-		res.SrcRead = src.handed
+		res.SrcRead = src.handedOut()
 		res.Data = data
 	case "writeto":
 		sink := &vfSink{failAt: -1}
